@@ -30,6 +30,14 @@ CHECKS = {
    text="Locator/LocatorHeights/GetHeaders are operators of Chain.tla; TLC checks LocatorShape and GetHeadersIsNextSegment on every reachable store; for every distinct store the locator and the getheaders answers for every locator set of size<=2 (both orders) and the full set x every stop (zero, every id, unknown) are compared with LatestHeaderLocator / LocateHeaders / LocateHeadersGetHeaders on the real stack; a 4100-header chain with stale branches exercises the 2000 cap and the doubling steps against the same operators.",
    technique="explicit TLA+ spec (Chain.tla: Locator, GetHeaders) checked by TLC; complete answer tables replayed against the real service; long-chain vectors validated by TLC",
    note=TB + " Empty locators are not asserted (protocol meaning is ambiguous). Stop hash = genesis is a listed known finding."),
+ "C05": dict(cat="fault_enumeration", ref="DESIGN.md §5 C05",
+   text="ChainSteps.tla models Add at repository-call grain (three separate write transactions); TLC checks LValid, AckedNeverLost, NotStuck, RedeliveryRecovers (store after restart + redelivery = store of the uninterrupted run) and RestartChangesNothing on every state for every history x every write boundary as kill point or failing write; every such behaviour TLC enumerates (fault, restart, full redelivery) is replayed on the real stack with a decorator around repository.Headers that kills or fails exactly that write, database.Init reopens the same file, and answers + full table are compared after every step.",
+   technique="explicit TLA+ spec (ChainSteps.tla) model-checked by TLC; TLC-enumerated fault/restart/redelivery behaviours replayed into the real stack through a fault-injecting repository decorator",
+   note=TB + " Kill points are transaction boundaries; one or two faults per behaviour; redelivery is in the original order."),
+ "C11": dict(cat="model_checking", ref="DESIGN.md §5 C11",
+   text="Notify.tla models the fan-out (one independent delivery task per channel per stored header); TLC checks NoEventWithoutStore, AtMostOnce, ExactlyOncePerChannel at quiescence, IngestionNeverWaits, ChannelsIndependent and the liveness EventuallyDelivered with one failing and one blocked channel; TLC-generated ingestion histories (duplicates, forbidden, orphans, reorgs, restarts, injected insert failures) are replayed with recording channels on the real Notifier: plain, slow/blocking, the real websocket channel over a recording publisher, the real WebhooksService over SQL with a scripted client; per channel the multiset of events and all nine fields are compared with the stored headers.",
+   technique="explicit TLA+ spec (Notify.tla) model-checked by TLC incl. liveness; TLC-generated histories replayed into the real notifier/channels with recording sinks",
+   note=TB + " The centrifuge node and a real websocket client are not in the loop (recording WebsocketPublisher)."),
 }
 
 NA = []
